@@ -40,6 +40,12 @@ def engine_b_part(prop, tier):
     for r in results:
         for msg in r["inconclusive"]:
             inc.append(f"engineB kernel={r['kernel']} [{r['semantics']}]: {msg}")
+        if r.get("not_decided"):
+            r.setdefault("undecided", []).append(r["not_decided"])
+        for msg in r.get("undecided", []):
+            # the kernel cannot be encoded on this tree (MIR outside the subset, helper renamed, a call outside the
+            # model list): nothing is claimed for it; the property then rests on Engine A's bounded harnesses
+            print(f"NOT-DECIDED property={prop} engineB kernel={r['kernel']} [{r['semantics']}]: {msg[:300]}")
         for s_ in r["sat"]:
             tag = f"engineB:{r['kernel']}:{'wrapping' if r['semantics'].startswith('wrapping') else 'checked'}"
             k = next((k for k in known.get("known", []) if k["property"] == prop and __import__("re").fullmatch(k["harness"], tag)), None)
@@ -72,6 +78,7 @@ def engine_b_part(prop, tier):
                 # the path went through a havoc'd loop (over-approximation): a witness that does not replay is
                 # not a counterexample of the real code; that exit stays undecided (recorded, never an alarm)
                 r.setdefault("abstraction_undecided", []).append({"path_kind": s_["path_kind"], "witness": s_["witness"], "replayed": bool(rep)})
+                print(f"NOT-DECIDED property={prop} engineB kernel={r['kernel']} [{r['semantics']}]: a candidate witness on an over-approximated path did not replay natively")
             else:
                 inc.append(line + " -- witness did not reproduce natively (encoding suspect)")
     cov = {"engine_b": {"summary": summ, "kernels": [{k: v for k, v in r.items() if k != "sat"} | {"sat": len(r["sat"])} for r in results],
